@@ -164,3 +164,69 @@ def bind_args(fn, args, kwargs):
     ba = sig.bind(*args, **kwargs)
     ba.apply_defaults()
     return types.SimpleNamespace(**ba.arguments)
+
+
+class CC:
+    """concrete-mode counterpart of C: the same contract text evaluated on numpy floats (replay / run-time checks).
+    Real equality is tolerance-based (1e-9 relative to the operands' magnitude)."""
+    TOL = 1e-9
+
+    @staticmethod
+    def And(*xs):
+        return all(bool(x) for x in xs)
+
+    @staticmethod
+    def Or(*xs):
+        return any(bool(x) for x in xs)
+
+    @staticmethod
+    def Not(x):
+        return not bool(x)
+
+    @staticmethod
+    def Implies(a, b):
+        return (not bool(a)) or bool(b)
+
+    @staticmethod
+    def ite(c, a, b):
+        return a if c else b
+
+    @staticmethod
+    def sqrt(x):
+        import math
+        return math.sqrt(float(x))
+
+    @staticmethod
+    def abs(x):
+        return abs(x)
+
+    def eq(self, a, b):
+        a = np.asarray(a, dtype=float)
+        b = np.asarray(b, dtype=float)
+        if a.shape != b.shape:
+            try:
+                a, b = np.broadcast_arrays(a, b)
+            except ValueError:
+                return False
+        scale = max(1.0, float(np.max(np.abs(a))) if a.size else 1.0, float(np.max(np.abs(b))) if b.size else 1.0)
+        return bool(np.all(np.abs(a - b) <= self.TOL * scale))
+
+    @staticmethod
+    def len(x):
+        return len(x)
+
+    @staticmethod
+    def forall(n, body, name="k"):
+        return all(bool(body(k)) for k in range(int(n)))
+
+    @staticmethod
+    def forall2(n, body):
+        n = int(n)
+        return all(bool(body(a, b)) for a in range(n) for b in range(a + 1, n))
+
+    @staticmethod
+    def exists(n, body, name="k"):
+        return any(bool(body(k)) for k in range(int(n)))
+
+    def assume(self, cond):
+        pass
